@@ -72,6 +72,50 @@ def render(st):
             f"lin?={1 if st['is_linear'] else 0};bvt={st.get('bvt', '-')}")
 
 
+CQM_STEPPED = ({'kadd', 'krm', 'kassign', 'kswap', 'crv', 'cfx', 'csv', 'cslb', 'csup', 'csvt'}
+               | {p + e for p in 'ok' for e in ('al', 'sl', 'aq', 'ri', 'rv', 'sv')})
+
+
+def cx_expr(e, empty):
+    j = lambda xs: ','.join(xs) or empty
+    rows = '|'.join(','.join(f'{v}:{rat(b)}' for v, b in row) for row in e['adj']) or empty
+    return f"{j(str(v) for v in e['vars'])}~{j(rat(x) for x in e['lin'])}~{rows}~{rat(e['off'])}"
+
+
+def cx_state(st, empty):
+    """a parsed CQM state of the interpreter in the text of the cppdriver's `cx` command (`empty` = '-' on input, '' in
+    the driver's answer)"""
+    j = lambda xs: ','.join(xs) or empty
+    return ' '.join([''.join(st['vt']) or empty, j(rat(x) for x in st['lb']), j(rat(x) for x in st['ub']), cx_expr(st['obj'], empty),
+                     ';'.join(cx_expr(c, empty) for c in st['cons']) or empty])
+
+
+def cx_canon(text):
+    """a `cx` state text up to the order in which an expression lists its variables (`Expression::add_quadratic` evaluates
+    `enforce_variable(u)` and `enforce_variable(v)` in an order the C++ standard leaves to the compiler): per expression the
+    linear bias per global variable, the bias per directed pair of global variables, the offset"""
+    parts = text.split(' ')
+    if len(parts) != 5:
+        return text
+    def ex(t):
+        vs, lin, adj, off = t.split('~')
+        vs = [int(x) for x in vs.split(',')] if vs not in ('', '-') else []
+        lin = lin.split(',') if lin not in ('', '-') else []
+        rows = adj.split('|') if adj not in ('', '-') else []
+        rows = rows + [''] * (len(vs) - len(rows))
+        quad = sorted((vs[i], vs[int(e.split(':')[0])], e.split(':')[1]) for i, r in enumerate(rows) for e in r.split(',') if e)
+        return (sorted(zip(vs, lin)), quad, off, len(lin) == len(vs) == len(rows))
+    return (parts[0].replace('-', ''), parts[1].replace('-', '') if parts[1] == '-' else parts[1], parts[2] if parts[2] != '-' else '',
+            ex(parts[3]), [ex(t) for t in parts[4].split(';')] if parts[4] not in ('', '-') else [])
+
+
+def cx_finite(st):
+    vals = list(st['lb']) + list(st['ub'])
+    for e in [st['obj']] + list(st['cons']):
+        vals += [e['off']] + list(e['lin']) + [b for row in e['adj'] for _, b in row]
+    return all(isinstance(x, F) for x in vals)
+
+
 def load_line(st):
     j = ','.join
     rows = '|'.join(j(f'{v}:{rat(b)}' for v, b in row) for row in st['adj']) or '-'
@@ -116,6 +160,7 @@ def cpp_part(ctx):
     nseq = ctx.scale(100, 2500)
     nops = ctx.scale(50, 100)
     lean_lines, lean_expect, lean_meta = [], [], []
+    cx_lines, cx_expect, cx_meta = [], [], []
     hist = __import__('collections').Counter()
     for kind in ('bqm', 'qm', 'cqm'):
         for k in range(nseq):
@@ -146,6 +191,21 @@ def cpp_part(ctx):
                          f'{kind} sequence of {len(fail.ops)} valid ops: {fail.detail[-700:]}',
                          repro=REPLAY_SRC % (list(fail.ops),), detail=dict(ops=list(fail.ops), stderr=fail.detail[-3000:]))
                 continue
+            # Expression / Constraint / CQM slots: every modelled call is replayed on the Lean model (`Cqm.cstep`, checked by
+            # `Cqm.cstep?`) from the state the interpreter printed before it, and the state after is compared
+            last = {}
+            for op, line, rep in log:
+                w = norm_op(op).split()
+                cs = [t for t in w[1:] if re.fullmatch(r'c\d', t)]
+                if (rep['status'] == 'ok' and w[0] in CQM_STEPPED and len(cs) == 1 and w[1] == cs[0] and cs[0] in last
+                        and cs[0] in rep['states'] and cx_finite(last[cs[0]]) and cx_finite(rep['states'][cs[0]])):
+                    cx_lines.append('cx ' + cx_state(last[cs[0]], '-') + ' ' + ' '.join([w[0]] + w[2:]))
+                    cx_expect.append(cx_state(rep['states'][cs[0]], ''))
+                    cx_meta.append((kind, op))
+                    ctx.tick('cx:' + w[0])
+                for name, st in rep['states'].items():
+                    if st['kind'] == 'cqm':
+                        last[name] = st
             # correspondence lines for the Lean index-level model
             for op, line, rep in log:
                 w = op.split()
@@ -164,6 +224,15 @@ def cpp_part(ctx):
         ctx.tick('cpp:' + name, c)
     alphabet_part(ctx, inc, hist)
     ctx.extra['cpp_seconds'] = round(time.time() - t0, 1)
+    gotx = run_driver('cppdriver', cx_lines)
+    ctx.corr_lines += len(cx_lines)
+    for i, ln in enumerate(cx_lines):
+        g = gotx[i] if i < len(gotx) else 'MISSING'
+        if g != cx_expect[i] and cx_canon(g) != cx_canon(cx_expect[i]):
+            ctx.fail('correspondence', 'C++ headers vs Lean Expression / CQM model', cx_meta[i][1].split()[0],
+                     f'line {i} `{ln}`: interpreter `{cx_expect[i]}` model `{g}`' + (' (the checked call hits a failing vector access)' if g == 'UB' else ''))
+            break
+    ctx.extra['cx_lines'] = len(cx_lines)
     got = run_driver('cppdriver', lean_lines)
     ctx.corr_lines += len(lean_lines)
     for i, ln in enumerate(lean_lines):
